@@ -373,11 +373,20 @@ func IsPercentageCanaryReplicasType(replicas *intstr.IntOrString) bool {
 	return replicas == nil || replicas.Type == intstr.String
 }
 
+// IsSameWorkloadRefGVKName returns true if both references name the same workload.
+// A workload is resolved by API group, kind and name (the version part of apiVersion
+// is not significant: apps/v1 and apps/v1beta1 Deployment "foo" are the same object).
 func IsSameWorkloadRefGVKName(a, b *appsv1beta1.ObjectRef) bool {
 	if a == nil || b == nil {
 		return false
 	}
-	return reflect.DeepEqual(a, b)
+	return isSameGroupKindName(a.APIVersion, a.Kind, a.Name, b.APIVersion, b.Kind, b.Name)
+}
+
+func isSameGroupKindName(apiVersionA, kindA, nameA, apiVersionB, kindB, nameB string) bool {
+	groupA := schema.FromAPIVersionAndKind(apiVersionA, kindA).Group
+	groupB := schema.FromAPIVersionAndKind(apiVersionB, kindB).Group
+	return groupA == groupB && kindA == kindB && nameA == nameB
 }
 
 var _ inject.Client = &RolloutCreateUpdateHandler{}
